@@ -118,6 +118,7 @@ type vc struct {
 	topFC             *funcContract
 	notes             []string // abstraction notes: havocs, unsupported constructs
 	trusted           map[string]bool
+	callGuard         map[string]string // path condition under which the k-th call to a callee under contract was made
 	curCall           ssa.CallInstruction // the call instruction being modelled (stdlib models that need operand types)
 	pendingBinds      []Val               // captured variables of the closure whose contract is being applied
 	escInfo           *escInfo            // non-escaping allocation sites of the function under verification (localobj.go)
@@ -505,6 +506,8 @@ type frame struct {
 	vals     map[ssa.Value]Val
 	params   map[string]Val
 	named    map[string][]namedDef
+	exprText map[ssa.Value]string // source text of the expression each value stands for (from debug info)
+	curBlock *ssa.BasicBlock      // block being executed (nil outside execBody): scope of names in in-body clauses
 	depth    int
 	entry    *state // state at function entry (for old())
 	top      bool
@@ -706,6 +709,15 @@ func (x *vc) execBody(fr *frame, st0 *state) execResult {
 			if dr, ok := instr.(*ssa.DebugRef); ok && dr.Object() != nil {
 				fr.named[dr.Object().Name()] = append(fr.named[dr.Object().Name()], namedDef{v: dr.X, blk: dr.Block(), addr: dr.IsAddr})
 			}
+			// source text of the expression an SSA value stands for (anchor of `atif` clauses)
+			if dr, ok := instr.(*ssa.DebugRef); ok && dr.Expr != nil && !dr.IsAddr {
+				if fr.exprText == nil {
+					fr.exprText = map[ssa.Value]string{}
+				}
+				if _, have := fr.exprText[dr.X]; !have {
+					fr.exprText[dr.X] = types.ExprString(dr.Expr)
+				}
+			}
 		}
 	}
 	loopOf := map[*ssa.BasicBlock]*loopInfo{}
@@ -770,11 +782,13 @@ func (x *vc) execBody(fr *frame, st0 *state) execResult {
 			x.reach = append(x.reach, &obligation{name: x.oblName("reach", fmt.Sprintf("%sb%d", x.framePrefix(fr), b.Index)), class: "reach", fn: fnKey(x.top),
 				goal: "false", guard: st.guard, nDecl: len(x.decls), nAssert: len(x.asserts), pos: x.p.pos(firstPos(b)), desc: kind + " reachable under the contract (probe)", auto: true, canary: true, soft: true})
 		}
+		fr.curBlock = b
 		noFall := x.execBlock(fr, st, b)
 		if noFall {
 			continue
 		}
 	}
+	fr.curBlock = nil
 	// merge returns
 	if len(fr.rets) == 0 {
 		return execResult{noRet: true, st: st0}
